@@ -158,6 +158,12 @@ class Verdict:
         lines = []
         for sig, v in sorted(self.known_hit.items()):
             lines.append('KNOWN-FINDING: property=%s %s (%s; reproduced %d times)' % (self.prop, sig, v['what'], v['count']))
+        import glob
+        for old in glob.glob(os.path.join(REPLAYS, '%s_%s_*.json' % (self.prop, self.tier))):
+            try:
+                os.unlink(old)
+            except OSError:
+                pass
         if self.violations:
             rc = 1
             seen = set()
